@@ -54,6 +54,8 @@ type Monitors struct {
 	pre   map[string][]string
 	fsBase []string
 	prevStore  string
+	gcBefore   *gcPre
+	aged       map[string]bool // repo|digest whose age was set beyond the grace period
 	diskShadow map[string]*repoShadow
 	// every digest a history has touched in a repository (for the restart observation)
 	everSeen map[string]map[string]bool
@@ -91,6 +93,7 @@ func (m *Monitors) repo(r string) *repoShadow {
 
 func (m *Monitors) reset(h *H) {
 	m.everSeen = nil
+	m.aged = map[string]bool{}
 	m.prevStore = kv(h.confToks, "store")
 	m.diskShadow = map[string]*repoShadow{}
 	m.repos = map[string]*repoShadow{}
@@ -216,6 +219,7 @@ func (rs *repoShadow) holds(d string) bool {
 
 func (m *Monitors) ackBlob(h *H, repo, real string, b []byte) {
 	m.note(repo, real)
+	delete(m.aged, repo+"|"+real) // a new upload is recent
 	rs := m.repo(repo)
 	rs.blobs[real] = append([]byte{}, b...)
 	rs.pushed[string(b)] = true
@@ -640,6 +644,7 @@ func (m *Monitors) bDel(h *H, a []string, r Resp) {
 	real := h.tk.realDigest(tok)
 	rs := m.repo(repo)
 	if r.Status == 202 {
+		delete(m.aged, repo+"|"+real)
 		delete(rs.blobs, real)
 		if ms, ok := rs.mans[real]; ok {
 			ms.blobGone = true
@@ -1320,4 +1325,213 @@ func (m *Monitors) fsUnchanged(h *H) {
 		}
 	}
 	m.fsBase = now
+}
+
+// ---------------------------------------------------------------- collections at the HTTP level (C05, C06)
+
+type gcPre struct {
+	complete map[string]bool     // tag -> the image behind it was completely pullable
+	present  map[string]bool     // real digest -> HEAD blob 200
+	manifest map[string]bool     // real digest -> GET manifest 200
+	refs     map[string][]string // subject -> sorted referrers listing
+	obs      []string
+}
+
+// pullable: the manifest behind ref and everything it references (children, config, layers) can be pulled
+func (m *Monitors) pullable(h *H, repo, ref string, depth int) bool {
+	acc := map[string][]string{"Accept": {mtReal["ocim"], mtReal["ocii"], mtReal["dockm"], mtReal["dockl"]}}
+	r := h.do("GET", "/v2/"+repo+"/manifests/"+ref, reqOpt{mode: "get", hdr: acc})
+	if r.Status != 200 {
+		return false
+	}
+	ct := r.header.Get("Content-Type")
+	if types.MediaTypeIndex(ct) {
+		var idx types.Index
+		if json.Unmarshal(r.raw, &idx) != nil {
+			return false
+		}
+		for _, c := range idx.Manifests {
+			if c.Digest.Validate() != nil {
+				return false
+			}
+			if types.MediaTypeIndex(c.MediaType) || types.MediaTypeImage(c.MediaType) {
+				if depth > 4 || !m.pullable(h, repo, c.Digest.String(), depth+1) {
+					return false
+				}
+			} else if g := h.do("HEAD", "/v2/"+repo+"/blobs/"+c.Digest.String(), reqOpt{mode: "head"}); g.Status != 200 {
+				return false
+			}
+		}
+		return true
+	}
+	var man types.Manifest
+	if json.Unmarshal(r.raw, &man) != nil {
+		return false
+	}
+	ds := append([]types.Descriptor{man.Config}, man.Layers...)
+	for _, d := range ds {
+		if d.Digest.Validate() != nil {
+			return false
+		}
+		if g := h.do("HEAD", "/v2/"+repo+"/blobs/"+d.Digest.String(), reqOpt{mode: "head"}); g.Status != 200 {
+			return false
+		}
+	}
+	return true
+}
+
+func (m *Monitors) gcSnapshot(h *H, repo string) *gcPre {
+	p := &gcPre{complete: map[string]bool{}, present: map[string]bool{}, manifest: map[string]bool{}, refs: map[string][]string{}}
+	acc := map[string][]string{"Accept": {mtReal["ocim"], mtReal["ocii"], mtReal["dockm"], mtReal["dockl"]}}
+	t := h.do("GET", "/v2/"+repo+"/tags/list", reqOpt{mode: "tags"})
+	if t.Status == 200 && t.Body != "[]" {
+		for _, tag := range strings.Split(strings.Trim(t.Body, "[]"), ",") {
+			p.complete[tag] = m.pullable(h, repo, tag, 0)
+		}
+	}
+	for d := range m.everSeen[repo] {
+		p.present[d] = h.do("HEAD", "/v2/"+repo+"/blobs/"+d, reqOpt{mode: "head"}).Status == 200
+		p.manifest[d] = h.do("GET", "/v2/"+repo+"/manifests/"+d, reqOpt{mode: "get", hdr: acc}).Status == 200
+		if *h.conf.API.Referrer.Enabled {
+			r := h.do("GET", "/v2/"+repo+"/referrers/"+d, reqOpt{mode: "refs"})
+			b := splitDescs(r.Body)
+			sort.Strings(b)
+			p.refs[d] = b
+		}
+	}
+	return p
+}
+
+// beforeGC / afterGC bracket an explicit collection of one repository
+func (m *Monitors) beforeGC(h *H, repo string) {
+	if !m.routable(h, repo) {
+		m.gcBefore = nil
+		return
+	}
+	m.gcBefore = m.gcSnapshot(h, repo)
+}
+
+func (m *Monitors) afterGC(h *H, repo string) {
+	pre := m.gcBefore
+	if pre == nil {
+		return
+	}
+	post := m.gcSnapshot(h, repo)
+	rs := m.repo(repo)
+	// C05: every tagged image that was completely pullable stays completely pullable
+	for tag, ok := range pre.complete {
+		if ok && !post.complete[tag] {
+			m.flag(h, "C05.tagged-incomplete", fmt.Sprintf("%s:%s was completely pullable before the collection and is not afterwards", repo, tag))
+		}
+	}
+	untaggedOff := !*h.conf.Storage.GC.Untagged
+	grace := h.conf.Storage.GC.GracePeriod >= 0
+	for d, was := range pre.manifest {
+		if !was || post.manifest[d] {
+			continue
+		}
+		ms := rs.mans[d]
+		// not judged once a manifest blob was deleted through the blob API (the index entry above it cannot be walked)
+		if untaggedOff && ms != nil && ms.subject == "" && !rs.refDirty {
+			m.flag(h, "C05.untagged-removed", fmt.Sprintf("manifest %s removed although untagged collection is off", h.tk.tokDigest(d)))
+		}
+	}
+	for d, was := range pre.present {
+		if was && !post.present[d] && grace && !m.aged[repo+"|"+d] {
+			m.flag(h, "C05.recent-removed", fmt.Sprintf("%s is younger than the grace period and was removed", h.tk.tokDigest(d)))
+		}
+	}
+	// C05: the referrers of a subject that is still pullable by tag are still listed with their content
+	for tag, ok := range pre.complete {
+		if !ok {
+			continue
+		}
+		d := rs.tags[tag]
+		if d == "" {
+			continue
+		}
+		for _, e := range pre.refs[d] {
+			found := false
+			for _, e2 := range post.refs[d] {
+				if e == e2 {
+					found = true
+				}
+			}
+			if !found && e != "" {
+				m.flag(h, "C05.referrer-lost", fmt.Sprintf("referrer %s of the tagged subject %s:%s is no longer listed after the collection", e, repo, tag))
+			}
+		}
+	}
+	// what the collection removed is no longer acknowledged content
+	for d, ok := range post.present {
+		if !ok {
+			delete(rs.blobs, d)
+			delete(m.aged, repo+"|"+d)
+		}
+	}
+	// C06: a second pass changes nothing
+	_ = h.srv.VerifGC(repo)
+	again := m.gcSnapshot(h, repo)
+	for d, was := range post.present {
+		if was != again.present[d] {
+			m.flag(h, "C06.second-pass-changes", fmt.Sprintf("blob %s: present=%v after one collection, %v after a second", h.tk.tokDigest(d), was, again.present[d]))
+			break
+		}
+	}
+	for d, was := range post.manifest {
+		if was != again.manifest[d] {
+			m.flag(h, "C06.second-pass-changes", fmt.Sprintf("manifest %s: present=%v after one collection, %v after a second", h.tk.tokDigest(d), was, again.manifest[d]))
+			break
+		}
+	}
+	// C06: no index entry without backing content: every tag still listed resolves
+	for tag := range post.complete {
+		acc := map[string][]string{"Accept": {mtReal["ocim"], mtReal["ocii"], mtReal["dockm"], mtReal["dockl"]}}
+		if g := h.do("HEAD", "/v2/"+repo+"/manifests/"+tag, reqOpt{mode: "head", hdr: acc}); g.Status != 200 {
+			m.flag(h, "C06.index-entry-without-blob", fmt.Sprintf("%s:%s is listed after the collection but answers %d", repo, tag, g.Status))
+		}
+	}
+	// C06: unreferenced blobs are removed once the grace period has elapsed or is disabled
+	// (conservatively: anything named by any manifest-shaped content that is still present counts as referenced)
+	referenced := map[string]bool{}
+	for d, ok := range post.present {
+		if !ok {
+			continue
+		}
+		raw := rs.blobs[d]
+		if ms, isMan := rs.mans[d]; isMan {
+			raw = ms.raw
+			referenced[d] = true
+		}
+		var man types.Manifest
+		var idx types.Index
+		if len(raw) > 0 && raw[0] == '{' {
+			if json.Unmarshal(raw, &man) == nil {
+				referenced[man.Config.Digest.String()] = true
+				for _, l := range man.Layers {
+					referenced[l.Digest.String()] = true
+				}
+			}
+			if json.Unmarshal(raw, &idx) == nil {
+				for _, c := range idx.Manifests {
+					referenced[c.Digest.String()] = true
+				}
+			}
+		}
+	}
+	for d, ok := range post.present {
+		if !ok || referenced[d] {
+			continue
+		}
+		if _, isMan := rs.mans[d]; isMan {
+			continue
+		}
+		if strings.HasPrefix(h.tk.contentName(rs.blobs[d]), "R(") {
+			continue
+		}
+		if _, plain := rs.blobs[d]; plain && (!grace || m.aged[repo+"|"+d]) && !post.manifest[d] {
+			m.flag(h, "C06.garbage-kept", fmt.Sprintf("unreferenced blob %s survives a collection with the grace period elapsed or disabled", h.tk.tokDigest(d)))
+		}
+	}
+	m.gcBefore = nil
 }
